@@ -127,21 +127,21 @@ fn mk_uri_userinfo(b: &[u8]) -> Option<&uri::UserInfo> {
     uri::UserInfo::new(b).ok()
 }
 fn mk_uri_host(b: &[u8]) -> Option<&uri::Host> {
-    if tables::t_uri_host_valid(b) {
+    if tables::t_uri_host_valid_k(b, 8) {
         Some(unsafe { uri::Host::new_unchecked(b) })
     } else {
         None
     }
 }
 fn mk_iri_segment(b: &[u8]) -> Option<&iri::Segment> {
-    if tables::t_iri_segment_valid(b) {
+    if tables::t_iri_segment_valid_k(b, 8) {
         Some(unsafe { iri::Segment::new_unchecked(as_str(b)) })
     } else {
         None
     }
 }
 fn mk_iri_query(b: &[u8]) -> Option<&iri::Query> {
-    if tables::t_iri_query_valid(b) {
+    if tables::t_iri_query_valid_k(b, 8) {
         Some(unsafe { iri::Query::new_unchecked(as_str(b)) })
     } else {
         None
@@ -158,63 +158,63 @@ pct_pair!(iri_query_pair, iri::Query, mk_iri_query, "iri::Query");
 
 // @h prop=C07,C08 tier=quick kind=check timeout=2400 mem=16 bound="all pairs of uri::Segment values <= 4 bytes each (escapes of any octet incl. %FF)" encodes="PartialEq/Ord/Hash for uri::Segment;utils::{pct_eq,pct_cmp,pct_hash};pct_str::Bytes::next"
 #[cfg_attr(kani, kani::proof)]
-#[cfg_attr(kani, kani::unwind(7))]
+#[cfg_attr(kani, kani::unwind(10))]
 pub fn c07_uri_segment_pair_n4() {
     uri_segment_pair::<4>()
 }
 
 // @h prop=C07,C08 tier=thorough kind=check timeout=3000 mem=20 bound="all pairs of uri::Segment values <= 6 bytes each (two escapes)" encodes="same as c07_uri_segment_pair_n4"
 #[cfg_attr(kani, kani::proof)]
-#[cfg_attr(kani, kani::unwind(9))]
+#[cfg_attr(kani, kani::unwind(10))]
 pub fn c07_uri_segment_pair_n6() {
     uri_segment_pair::<6>()
 }
 
 // @h prop=C07,C08 tier=quick kind=check timeout=2400 mem=16 bound="all pairs of uri::Host values <= 4 bytes each" encodes="PartialEq/Ord/Hash for uri::Host"
 #[cfg_attr(kani, kani::proof)]
-#[cfg_attr(kani, kani::unwind(7))]
+#[cfg_attr(kani, kani::unwind(10))]
 pub fn c07_uri_host_pair_n4() {
     uri_host_pair::<4>()
 }
 
 // @h prop=C07,C08 tier=thorough kind=check timeout=3000 mem=20 bound="all pairs of uri::Query values <= 5 bytes each" encodes="PartialEq/Ord/Hash for uri::Query"
 #[cfg_attr(kani, kani::proof)]
-#[cfg_attr(kani, kani::unwind(8))]
+#[cfg_attr(kani, kani::unwind(10))]
 pub fn c07_uri_query_pair_n5() {
     uri_query_pair::<5>()
 }
 
 // @h prop=C07,C08 tier=thorough kind=check timeout=3000 mem=20 bound="all pairs of uri::Fragment values <= 5 bytes each" encodes="PartialEq/Ord/Hash for uri::Fragment"
 #[cfg_attr(kani, kani::proof)]
-#[cfg_attr(kani, kani::unwind(8))]
+#[cfg_attr(kani, kani::unwind(10))]
 pub fn c07_uri_fragment_pair_n5() {
     uri_fragment_pair::<5>()
 }
 
 // @h prop=C07,C08 tier=thorough kind=check timeout=3000 mem=20 bound="all pairs of uri::UserInfo values <= 5 bytes each" encodes="PartialEq/Ord/Hash for uri::UserInfo"
 #[cfg_attr(kani, kani::proof)]
-#[cfg_attr(kani, kani::unwind(8))]
+#[cfg_attr(kani, kani::unwind(10))]
 pub fn c07_uri_userinfo_pair_n5() {
     uri_userinfo_pair::<5>()
 }
 
 // @h prop=C07,C08 tier=quick kind=check timeout=2400 mem=16 bound="all pairs of iri::Segment values <= 4 bytes each (literal non-ASCII vs escapes: e-acute vs %C3%A9 needs 6, see n6)" encodes="PartialEq/Ord/Hash for iri::Segment"
 #[cfg_attr(kani, kani::proof)]
-#[cfg_attr(kani, kani::unwind(7))]
+#[cfg_attr(kani, kani::unwind(10))]
 pub fn c07_iri_segment_pair_n4() {
     iri_segment_pair::<4>()
 }
 
 // @h prop=C07,C08 tier=thorough kind=check timeout=3000 mem=20 bound="all pairs of iri::Segment values <= 6 bytes each (literal U+00E9 vs %C3%A9 fits)" encodes="same as c07_iri_segment_pair_n4"
 #[cfg_attr(kani, kani::proof)]
-#[cfg_attr(kani, kani::unwind(9))]
+#[cfg_attr(kani, kani::unwind(10))]
 pub fn c07_iri_segment_pair_n6() {
     iri_segment_pair::<6>()
 }
 
 // @h prop=C07,C08 tier=thorough kind=check timeout=3000 mem=20 bound="all pairs of iri::Query values <= 5 bytes each" encodes="PartialEq/Ord/Hash for iri::Query"
 #[cfg_attr(kani, kani::proof)]
-#[cfg_attr(kani, kani::unwind(8))]
+#[cfg_attr(kani, kani::unwind(10))]
 pub fn c07_iri_query_pair_n5() {
     iri_query_pair::<5>()
 }
@@ -236,7 +236,7 @@ fn literal_pair<const N: usize>() {
 
 // @h prop=C07,C08 tier=quick kind=check bound="all pairs of Scheme / Port values <= 4 bytes each" encodes="derived PartialEq/Ord/Hash for uri::Scheme and uri::Port (literal bytes)"
 #[cfg_attr(kani, kani::proof)]
-#[cfg_attr(kani, kani::unwind(7))]
+#[cfg_attr(kani, kani::unwind(10))]
 pub fn c07_literal_pair_n4() {
     literal_pair::<4>()
 }
@@ -336,7 +336,7 @@ macro_rules! path_rep_harness {
 
 // @h prop=C07,C08 tier=quick kind=check timeout=3000 mem=24 bound="uri::Path <= 4 bytes x representative 'a/..' (both orders)" encodes="PartialEq/Ord/Hash for uri::Path;NormalizedSegmentsImpl::new (SmallVec::push/try_grow stubbed)"
 #[cfg_attr(kani, kani::proof)]
-#[cfg_attr(kani, kani::unwind(8))]
+#[cfg_attr(kani, kani::unwind(10))]
 #[cfg_attr(kani, kani::stub(smallvec::SmallVec::try_grow, crate::stubs::sv_try_grow))]
 #[cfg_attr(kani, kani::stub(smallvec::SmallVec::push, crate::stubs::sv_push))]
 pub fn c07_path_vs_rep6_n4() {
@@ -345,7 +345,7 @@ pub fn c07_path_vs_rep6_n4() {
 
 // @h prop=C07,C08 tier=quick kind=check timeout=3000 mem=24 bound="uri::Path <= 4 bytes x representative '//a' (both orders)" encodes="same as c07_path_vs_rep6_n4"
 #[cfg_attr(kani, kani::proof)]
-#[cfg_attr(kani, kani::unwind(8))]
+#[cfg_attr(kani, kani::unwind(10))]
 #[cfg_attr(kani, kani::stub(smallvec::SmallVec::try_grow, crate::stubs::sv_try_grow))]
 #[cfg_attr(kani, kani::stub(smallvec::SmallVec::push, crate::stubs::sv_push))]
 pub fn c07_path_vs_rep8_n4() {
@@ -354,7 +354,7 @@ pub fn c07_path_vs_rep8_n4() {
 
 // @h prop=C07,C08 tier=thorough kind=check timeout=5400 mem=26 bound="uri::Path <= 5 bytes x representative '' (both orders)" encodes="same as c07_path_vs_rep6_n4"
 #[cfg_attr(kani, kani::proof)]
-#[cfg_attr(kani, kani::unwind(9))]
+#[cfg_attr(kani, kani::unwind(10))]
 #[cfg_attr(kani, kani::stub(smallvec::SmallVec::try_grow, crate::stubs::sv_try_grow))]
 #[cfg_attr(kani, kani::stub(smallvec::SmallVec::push, crate::stubs::sv_push))]
 pub fn c07_path_vs_rep0_n5() {
@@ -363,7 +363,7 @@ pub fn c07_path_vs_rep0_n5() {
 
 // @h prop=C07,C08 tier=thorough kind=check timeout=5400 mem=26 bound="uri::Path <= 5 bytes x representative '/' (both orders)" encodes="same as c07_path_vs_rep6_n4"
 #[cfg_attr(kani, kani::proof)]
-#[cfg_attr(kani, kani::unwind(9))]
+#[cfg_attr(kani, kani::unwind(10))]
 #[cfg_attr(kani, kani::stub(smallvec::SmallVec::try_grow, crate::stubs::sv_try_grow))]
 #[cfg_attr(kani, kani::stub(smallvec::SmallVec::push, crate::stubs::sv_push))]
 pub fn c07_path_vs_rep1_n5() {
@@ -372,7 +372,7 @@ pub fn c07_path_vs_rep1_n5() {
 
 // @h prop=C07,C08 tier=thorough kind=check timeout=5400 mem=26 bound="uri::Path <= 5 bytes x representative 'a' (both orders)" encodes="same as c07_path_vs_rep6_n4"
 #[cfg_attr(kani, kani::proof)]
-#[cfg_attr(kani, kani::unwind(9))]
+#[cfg_attr(kani, kani::unwind(10))]
 #[cfg_attr(kani, kani::stub(smallvec::SmallVec::try_grow, crate::stubs::sv_try_grow))]
 #[cfg_attr(kani, kani::stub(smallvec::SmallVec::push, crate::stubs::sv_push))]
 pub fn c07_path_vs_rep2_n5() {
@@ -381,7 +381,7 @@ pub fn c07_path_vs_rep2_n5() {
 
 // @h prop=C07,C08 tier=thorough kind=check timeout=5400 mem=26 bound="uri::Path <= 5 bytes x representative 'a/' (both orders)" encodes="same as c07_path_vs_rep6_n4"
 #[cfg_attr(kani, kani::proof)]
-#[cfg_attr(kani, kani::unwind(9))]
+#[cfg_attr(kani, kani::unwind(10))]
 #[cfg_attr(kani, kani::stub(smallvec::SmallVec::try_grow, crate::stubs::sv_try_grow))]
 #[cfg_attr(kani, kani::stub(smallvec::SmallVec::push, crate::stubs::sv_push))]
 pub fn c07_path_vs_rep3_n5() {
@@ -390,7 +390,7 @@ pub fn c07_path_vs_rep3_n5() {
 
 // @h prop=C07,C08 tier=thorough kind=check timeout=5400 mem=26 bound="uri::Path <= 5 bytes x representative 'a/b' (both orders)" encodes="same as c07_path_vs_rep6_n4"
 #[cfg_attr(kani, kani::proof)]
-#[cfg_attr(kani, kani::unwind(9))]
+#[cfg_attr(kani, kani::unwind(10))]
 #[cfg_attr(kani, kani::stub(smallvec::SmallVec::try_grow, crate::stubs::sv_try_grow))]
 #[cfg_attr(kani, kani::stub(smallvec::SmallVec::push, crate::stubs::sv_push))]
 pub fn c07_path_vs_rep4_n5() {
@@ -399,7 +399,7 @@ pub fn c07_path_vs_rep4_n5() {
 
 // @h prop=C07,C08 tier=thorough kind=check timeout=5400 mem=26 bound="uri::Path <= 5 bytes x representative '..' (both orders)" encodes="same as c07_path_vs_rep6_n4"
 #[cfg_attr(kani, kani::proof)]
-#[cfg_attr(kani, kani::unwind(9))]
+#[cfg_attr(kani, kani::unwind(10))]
 #[cfg_attr(kani, kani::stub(smallvec::SmallVec::try_grow, crate::stubs::sv_try_grow))]
 #[cfg_attr(kani, kani::stub(smallvec::SmallVec::push, crate::stubs::sv_push))]
 pub fn c07_path_vs_rep5_n5() {
@@ -408,7 +408,7 @@ pub fn c07_path_vs_rep5_n5() {
 
 // @h prop=C07,C08 tier=thorough kind=check timeout=5400 mem=26 bound="uri::Path <= 5 bytes x representative 'a/..' (both orders)" encodes="same as c07_path_vs_rep6_n4"
 #[cfg_attr(kani, kani::proof)]
-#[cfg_attr(kani, kani::unwind(9))]
+#[cfg_attr(kani, kani::unwind(10))]
 #[cfg_attr(kani, kani::stub(smallvec::SmallVec::try_grow, crate::stubs::sv_try_grow))]
 #[cfg_attr(kani, kani::stub(smallvec::SmallVec::push, crate::stubs::sv_push))]
 pub fn c07_path_vs_rep6_n5() {
@@ -417,7 +417,7 @@ pub fn c07_path_vs_rep6_n5() {
 
 // @h prop=C07,C08 tier=thorough kind=check timeout=5400 mem=26 bound="uri::Path <= 5 bytes x representative './a' (both orders)" encodes="same as c07_path_vs_rep6_n4"
 #[cfg_attr(kani, kani::proof)]
-#[cfg_attr(kani, kani::unwind(9))]
+#[cfg_attr(kani, kani::unwind(10))]
 #[cfg_attr(kani, kani::stub(smallvec::SmallVec::try_grow, crate::stubs::sv_try_grow))]
 #[cfg_attr(kani, kani::stub(smallvec::SmallVec::push, crate::stubs::sv_push))]
 pub fn c07_path_vs_rep7_n5() {
@@ -426,7 +426,7 @@ pub fn c07_path_vs_rep7_n5() {
 
 // @h prop=C07,C08 tier=thorough kind=check timeout=5400 mem=26 bound="uri::Path <= 5 bytes x representative '//a' (both orders)" encodes="same as c07_path_vs_rep6_n4"
 #[cfg_attr(kani, kani::proof)]
-#[cfg_attr(kani, kani::unwind(9))]
+#[cfg_attr(kani, kani::unwind(10))]
 #[cfg_attr(kani, kani::stub(smallvec::SmallVec::try_grow, crate::stubs::sv_try_grow))]
 #[cfg_attr(kani, kani::stub(smallvec::SmallVec::push, crate::stubs::sv_push))]
 pub fn c07_path_vs_rep8_n5() {
@@ -435,7 +435,7 @@ pub fn c07_path_vs_rep8_n5() {
 
 // @h prop=C07,C08 tier=thorough kind=check timeout=5400 mem=26 bound="uri::Path <= 5 bytes x representative '%61' (both orders)" encodes="same as c07_path_vs_rep6_n4"
 #[cfg_attr(kani, kani::proof)]
-#[cfg_attr(kani, kani::unwind(9))]
+#[cfg_attr(kani, kani::unwind(10))]
 #[cfg_attr(kani, kani::stub(smallvec::SmallVec::try_grow, crate::stubs::sv_try_grow))]
 #[cfg_attr(kani, kani::stub(smallvec::SmallVec::push, crate::stubs::sv_push))]
 pub fn c07_path_vs_rep9_n5() {
@@ -444,7 +444,7 @@ pub fn c07_path_vs_rep9_n5() {
 
 // @h prop=C07,C08 tier=thorough kind=check timeout=5400 mem=26 bound="uri::Path <= 5 bytes x representative '/a' (both orders)" encodes="same as c07_path_vs_rep6_n4"
 #[cfg_attr(kani, kani::proof)]
-#[cfg_attr(kani, kani::unwind(9))]
+#[cfg_attr(kani, kani::unwind(10))]
 #[cfg_attr(kani, kani::stub(smallvec::SmallVec::try_grow, crate::stubs::sv_try_grow))]
 #[cfg_attr(kani, kani::stub(smallvec::SmallVec::push, crate::stubs::sv_push))]
 pub fn c07_path_vs_rep10_n5() {
@@ -453,7 +453,7 @@ pub fn c07_path_vs_rep10_n5() {
 
 // @h prop=C07,C08 tier=thorough kind=check timeout=5400 mem=26 bound="uri::Path <= 5 bytes x representative '/a/.' (both orders)" encodes="same as c07_path_vs_rep6_n4"
 #[cfg_attr(kani, kani::proof)]
-#[cfg_attr(kani, kani::unwind(9))]
+#[cfg_attr(kani, kani::unwind(10))]
 #[cfg_attr(kani, kani::stub(smallvec::SmallVec::try_grow, crate::stubs::sv_try_grow))]
 #[cfg_attr(kani, kani::stub(smallvec::SmallVec::push, crate::stubs::sv_push))]
 pub fn c07_path_vs_rep11_n5() {
@@ -462,7 +462,7 @@ pub fn c07_path_vs_rep11_n5() {
 
 // @h prop=C07,C08 tier=thorough kind=check timeout=5400 mem=26 bound="uri::Path <= 5 bytes x representative '../a' (both orders)" encodes="same as c07_path_vs_rep6_n4"
 #[cfg_attr(kani, kani::proof)]
-#[cfg_attr(kani, kani::unwind(9))]
+#[cfg_attr(kani, kani::unwind(10))]
 #[cfg_attr(kani, kani::stub(smallvec::SmallVec::try_grow, crate::stubs::sv_try_grow))]
 #[cfg_attr(kani, kani::stub(smallvec::SmallVec::push, crate::stubs::sv_push))]
 pub fn c07_path_vs_rep12_n5() {
@@ -471,9 +471,44 @@ pub fn c07_path_vs_rep12_n5() {
 
 // @h prop=C07,C08 tier=thorough kind=check timeout=5400 mem=26 bound="uri::Path <= 5 bytes x representative '/%2F' (both orders)" encodes="same as c07_path_vs_rep6_n4"
 #[cfg_attr(kani, kani::proof)]
-#[cfg_attr(kani, kani::unwind(9))]
+#[cfg_attr(kani, kani::unwind(10))]
 #[cfg_attr(kani, kani::stub(smallvec::SmallVec::try_grow, crate::stubs::sv_try_grow))]
 #[cfg_attr(kani, kani::stub(smallvec::SmallVec::push, crate::stubs::sv_push))]
 pub fn c07_path_vs_rep13_n5() {
     path_vs_rep::<5, 13>()
+}
+
+/// Deeper, over a dot-segment alphabet ({'.','/','a'}), against a representative.
+fn path_dots_vs_rep<const N: usize, const K: usize>() {
+    let t = Text::<N>::any();
+    let a = t.bytes();
+    let mut i = 0;
+    while i < a.len() {
+        assume(a[i] == b'.' || a[i] == b'/' || a[i] == b'a');
+        i += 1;
+    }
+    let x = unsafe { uri::Path::new_unchecked(a) };
+    let r = PATH_REPS[K];
+    let y = unsafe { uri::Path::new_unchecked(r) };
+    check_pair!(x, y, path_order(a, r), "uri::Path");
+    cover!(*x == *y && a.len() >= r.len() + 4, "equal to the representative after removing two or more dot segments");
+    cover!(*x != *y, "different from the representative");
+}
+
+// @h prop=C07,C08 tier=quick kind=check timeout=3000 mem=24 bound="paths <= 7 bytes over the alphabet {'.','/','a'} x representative '..' (both orders)" encodes="PartialEq/Ord/Hash for uri::Path on dot-segment mixtures"
+#[cfg_attr(kani, kani::proof)]
+#[cfg_attr(kani, kani::unwind(10))]
+#[cfg_attr(kani, kani::stub(smallvec::SmallVec::try_grow, crate::stubs::sv_try_grow))]
+#[cfg_attr(kani, kani::stub(smallvec::SmallVec::push, crate::stubs::sv_push))]
+pub fn c07_path_dots_vs_rep5_n7() {
+    path_dots_vs_rep::<7, 5>()
+}
+
+// @h prop=C07,C08 tier=thorough kind=check timeout=5400 mem=26 bound="paths <= 9 bytes over the alphabet {'.','/','a'} x representative 'a/b' (both orders)" encodes="same as c07_path_dots_vs_rep5_n7"
+#[cfg_attr(kani, kani::proof)]
+#[cfg_attr(kani, kani::unwind(12))]
+#[cfg_attr(kani, kani::stub(smallvec::SmallVec::try_grow, crate::stubs::sv_try_grow))]
+#[cfg_attr(kani, kani::stub(smallvec::SmallVec::push, crate::stubs::sv_push))]
+pub fn c07_path_dots_vs_rep4_n9() {
+    path_dots_vs_rep::<9, 4>()
 }
